@@ -44,6 +44,19 @@ def _db_mutations(f: Func) -> List[ast.AST]:
                     out.append(n)
             if isinstance(n, ast.AugAssign) and unparse(n.target) == "self.database":
                 out.append(n)
+    # in-place edits of the records themselves
+    elems = set()
+    for n in own_nodes(f.node):
+        if isinstance(n, (ast.For, ast.comprehension)) and unparse(n.iter) == "self.database" and isinstance(n.target, ast.Name):
+            elems.add(n.target.id)
+    for n in own_nodes(f.node):
+        if isinstance(n, (ast.Assign, ast.AugAssign, ast.Delete)):
+            targets = n.targets if isinstance(n, (ast.Assign, ast.Delete)) else [n.target]
+            for t in targets:
+                if isinstance(t, ast.Subscript) and isinstance(t.value, ast.Name) and t.value.id in elems:
+                    out.append(n)
+        elif isinstance(n, ast.Call) and isinstance(n.func, ast.Attribute) and isinstance(n.func.value, ast.Name) and n.func.value.id in elems and n.func.attr in ("update", "pop", "clear", "setdefault"):
+            out.append(n)
     return out
 
 
@@ -184,8 +197,9 @@ def check(ctx) -> None:
     ok4 = False
     for h in handlers:
         ht = unparse(h.type) if h.type is not None else "BaseException"
+        hts = {unparse(x) for x in h.type.elts} if isinstance(h.type, ast.Tuple) else {ht}
         collects = any(isinstance(x, ast.Expr) and isinstance(x.value, ast.Call) and getattr(x.value.func, "attr", "") == "append" for x in h.body)
-        covers = all(rt in (ht,) or ht in ("Exception", "BaseException") for rt in raised_types)
+        covers = all(rt in hts or hts & {"Exception", "BaseException"} for rt in raised_types)
         ok4 = collects and covers and bool(raised_types)
         ctx.instance("C19-U4", "add_entries handler catches %s (rejections raise %s) and collects the entry" % (ht, sorted(raised_types)), adds.loc(h), ok=ok4)
     if not ok4:
